@@ -37,7 +37,7 @@ pub fn run(ctx: &Ctx) -> Report {
                 record(&mut rep, &case, fails, with_twin);
             }
         }
-        let n = ctx.scale(600, 16 * 5_000) / ctx.workers as u64;
+        let n = ctx.scale(600, 16 * 25_000) / ctx.workers as u64;
         let mut rng = Rng::new(derive(ctx.seed, &prop, w as u64, 0));
         for i in 0..n {
             if ctx.expired() {
